@@ -33,6 +33,10 @@ THEOREMS = [
     "Aio.C09.resumed_reader_raises_recorded_exception",
     "Aio.C09.resumed_reader_reparks_unrepaired",
     "Aio.C09.parked_reader_scenario_both_versions",
+    "Aio.C09.read_returns_only_with_data_or_eof",
+    "Aio.C09.readline_collects_at_most_max_size",
+    "Aio.C09.readline_result_bounded",
+    "Aio.C09.server_close_fails_parked_handler",
     "Aio.C09.lost_body_counterexample_peer_close",
     "Aio.C09.lost_body_counterexample_chunked_close",
     "Aio.C09.parked_reader_misses_error_counterexample",
@@ -524,10 +528,14 @@ class Pipeline:
                 def data_received(self, data):
                     if self._parser is None:
                         return
+                    body_parser_alive = self._parser._payload_parser is not None
                     try:
                         msgs, _, _ = self._parser.feed_data(data)
                     except HttpProcessingError as e:
-                        outer.up = e
+                        # only what the body's payload parser re-raised is in the model's scope; an error while parsing
+                        # whatever follows the finished / failed body (next message) is not
+                        if body_parser_alive or not outer.msgs:
+                            outer.up = e
                         return
                     outer.msgs.extend(msgs)
             proto = Srv(loop)
@@ -541,6 +549,8 @@ class Pipeline:
         self.req_coro = None
         self.req_fut = None
         self.parked_with_exc = None
+        self.p_coro = None
+        self.p_fut = None
 
     def start(self, head_and_first):
         """feed the header block (possibly with the first body bytes)"""
@@ -614,6 +624,25 @@ class Pipeline:
         self.parked_with_exc = self.payload._exception is not None
         return "blk"
 
+    def pcall(self, kind, n=None):
+        """a consumer coroutine that stays parked in StreamReader._wait(): read(n) / readany() / readline().
+        Resumed only when its waiter is done; `blk` while it waits."""
+        if self.p_coro is None:
+            self.p_coro = {"PR": lambda: self.payload.read(n), "PA": self.payload.readany,
+                           "PL": self.payload.readline}[kind]()
+        elif self.p_fut is not None and not self.p_fut.done():
+            return "blk"
+        try:
+            self.p_fut = self.p_coro.send(None)
+        except StopIteration as e:
+            self.p_coro = None
+            return "d=" + hx(e.value)
+        except Exception as e:
+            self.p_coro = None
+            return "e=" + err_name(e)
+        self.parked_with_exc = self.payload._exception is not None
+        return "blk"
+
     def state(self):
         p, proto = self.payload, self.proto
         parser = proto._parser
@@ -653,7 +682,8 @@ def make_payload(rng, limit, shape, quick):
     base = max(limit, 4)
     if shape == "bomb":
         n = min(rng.choice([6, 12, 40]) * base + rng.randrange(3), cap)
-        return bytes([rng.randrange(256)]) * n
+        b = rng.randrange(255)
+        return bytes([b + 1 if b >= 10 else b]) * n      # never b"\n": a bomb of newlines is hundreds of thousands of readline() calls
     mult = rng.choice([0.4, 1.0, 1.9, 2.1, 3.2, 5.5])
     n = min(max(1, int(mult * base) + rng.randrange(-1, 2)), cap // 3)
     if shape == "text":
@@ -782,13 +812,21 @@ def gen_case(rng, quick, encs):
     nseg = len(segs)
     use_post = False
     cms = 0
+    pop = None
+    if rng.random() < 0.22:
+        # a consumer coroutine that stays parked in _wait() and is resumed when its waiter is done
+        mode = "parked"
+        psizes = [max(1, limit // 2), max(1, limit - 1), limit, limit + 1, 2 * limit + 1] + ([1, 2, 3] if limit <= 16 else [])
+        pop = rng.choice([["PR", rng.choice(psizes)], ["PR", rng.choice(psizes)], ["PA"], ["PL"], ["PL"]])
+        if pop == ["PL"] and shape.startswith("text") and limit > 1024:
+            pop = ["PA"]          # tens of thousands of short lines: nothing new per line, only slow
     if mode == "req":
         declen = len(body)
         cms = rng.choice([0, 1, max(1, declen // 2), declen, declen + 1, 4 * declen + 5, 1024 ** 2])
         use_post = rng.random() < 0.3 and shape == "text"
     if mode == "readall":
         ops.append(["S", MAXSIZE])
-    pd = {"lazy": 0.85, "eager": 0.3, "mixed": 0.55, "req": 0.6, "readall": 0.5}[mode]
+    pd = {"lazy": 0.85, "eager": 0.3, "mixed": 0.55, "req": 0.6, "readall": 0.5, "parked": rng.choice([0.3, 0.6, 0.85])}[mode]
     budget = nseg * 2 + 12
     closed = False
     while budget > 0:
@@ -798,6 +836,8 @@ def gen_case(rng, quick, encs):
             ops.append(["D"])
         elif mode == "req":
             ops.append(["Q", cms])
+        elif mode == "parked":
+            ops.append(pop)
         elif mode == "readall" or r > 0.93:
             ops.append(["A"])
         elif r > 0.9:
@@ -808,7 +848,7 @@ def gen_case(rng, quick, encs):
     ce_variant = "lower"
     if enc != "identity" and "+" not in shape.replace("+multi", "").replace("+aligned", "") and rng.random() < 0.06:
         ce_variant = rng.choice(["upper", "title"])
-    return {"ce_variant": ce_variant, "side": side, "enc": enc, "limit": limit, "framing": framing, "body": hx(body), "wire_segs": [hx(s) for s in segs],
+    return {"pop": pop, "ce_variant": ce_variant, "side": side, "enc": enc, "limit": limit, "framing": framing, "body": hx(body), "wire_segs": [hx(s) for s in segs],
             "merge_head": merge_head, "ops": ops, "shape": shape, "cms": cms, "post": use_post, "mode": mode,
             "close_after_wire": (side == "client" and (framing == "E" or rng.random() < 0.35)), "close_early": close_early}
 
@@ -920,6 +960,8 @@ def _run_case(case, loop, rec, max_ops):
     # remember where in the framing that call stopped -- it identifies the stale-pause scenario if a stall follows
     stale_birth = [None]
     more_at_close = [None]
+    line_taken, line_resumed, line_peak = [0], [False], [0]
+    early_empty = [None]
 
     def note_stale():
         parser = p.proto._parser
@@ -968,6 +1010,16 @@ def _run_case(case, loop, rec, max_ops):
             toks.append(f"S:{op[1]}"); out = p.set_chunk(op[1])
         elif k == "Q":
             toks.append(f"Q:{op[1]}"); out = p.req_read(op[1], case.get("post", False))
+        elif k in ("PR", "PA", "PL"):
+            toks.append(f"PR:{op[1]}" if k == "PR" else k)
+            cur0 = p.payload._cursor
+            out = p.pcall(k, op[1] if k == "PR" else None)
+            if k == "PL":
+                # what ONE readline() call took out of the reader (its local `chunk`): the memory it holds
+                line_taken[0] = (line_taken[0] if line_resumed[0] else 0) + (p.payload._cursor - cur0)
+                line_resumed[0] = out == "blk"
+                if line_taken[0] > line_peak[0]:
+                    line_peak[0] = line_taken[0]
         else:
             raise ValueError(op)
         trace.append(out + "/" + p.state())
@@ -980,6 +1032,16 @@ def _run_case(case, loop, rec, max_ops):
                 delivered.extend(d)
                 if not d and (k == "A" or op[1] > 0):
                     final = ("eof",)
+            elif out.startswith("e="):
+                final = ("err", out[2:])
+        if k in ("PR", "PA", "PL"):
+            if out.startswith("d="):
+                d = unhx(out[2:])
+                delivered.extend(d)
+                if not d:
+                    final = ("eof",)
+                    if not p.payload.is_eof():
+                        early_empty[0] = f"{toks[-1]} returned b'' after {len(delivered)} bytes although feed_eof() has not happened"
             elif out.startswith("e="):
                 final = ("err", out[2:])
         if k == "Q":
@@ -1000,7 +1062,7 @@ def _run_case(case, loop, rec, max_ops):
             do(["X"])
         do(op)
     # drain phase: the consumer keeps reading, the peer has sent everything
-    reader = ["Q", case["cms"]] if case["mode"] == "req" else ["A"]
+    reader = ["Q", case["cms"]] if case["mode"] == "req" else (case["pop"] if case["mode"] == "parked" else ["A"])
     idle = 0
     n_ops = 0
     while final is None and n_ops < max_ops:
@@ -1052,7 +1114,8 @@ def _run_case(case, loop, rec, max_ops):
             "tr_paused": p.tr.paused, "size": pstate._size, "n_ops": len(trace),
             "exc_pending": None if pstate._exception is None else err_name(pstate._exception),
             "stale_class": stale_birth[0] or "no-surviving-pause-flag-seen", "more_at_close": more_at_close[0],
-            "parked_with_exc": p.parked_with_exc, "runaway": runaway[0], "compression": getattr(p.msg, "compression", None)}
+            "parked_with_exc": p.parked_with_exc, "runaway": runaway[0], "compression": getattr(p.msg, "compression", None),
+            "line_peak": line_peak[0], "early_empty": early_empty[0]}
     return {"line": line, "impl": impl, "info": info}
 
 
@@ -1090,6 +1153,9 @@ def oracle(ctx, case, info):
                "op-budget": "C09/no-progress/op-budget-exhausted"}.get(kind, "C09/no-progress/" + kind)
         ctx.violation(sig, c, detail)
         return
+    # --- b"" from read(n) / readany() / readline() means end-of-body and nothing else
+    if info.get("early_empty"):
+        ctx.violation("C09/not-transparent/read-returned-empty-before-end-of-body", c, info["early_empty"])
     # --- transparency / corrupt-is-error
     if wire_ok and case["mode"] != "req":
         if ref[0] == "ok":
@@ -1110,7 +1176,14 @@ def oracle(ctx, case, info):
                               f"reference decoder reports the {enc} stream as {ref[0]}, the consumer saw a clean end-of-body "
                               f"after {len(delivered)} bytes")
     # --- an error that is pending on the stream must reach a consumer that keeps reading
-    if final[0] == "stuck" and info.get("exc_pending"):
+    if final[0] == "stuck" and info.get("exc_pending") and info.get("parked_with_exc") and case.get("pop") == ["PL"]:
+        # readuntil() took buffers, that refilled the reader re-entrantly (resume_reading -> data_received(b"")), the parser
+        # failed and set the exception while the coroutine was RUNNING; the loop then calls _wait(), which parks without
+        # looking at _exception (the repaired _wait only re-checks after a wake-up)
+        ctx.violation("C09/error-not-reported/readline-parks-after-exception-set-during-its-own-read", c,
+                      f"payload exception {info['exc_pending']} was set while readline() was taking buffers; it then parked in "
+                      f"_wait() and stays parked forever")
+    elif final[0] == "stuck" and info.get("exc_pending"):
         if info.get("parked_with_exc"):
             # the known scenario: the waiter was completed WITHOUT data (chunk end), the exception was set while no
             # waiter was registered, the resumed coroutine re-parked without looking at _exception
@@ -1153,6 +1226,9 @@ def oracle(ctx, case, info):
                               f"closed.') after {len(delivered)} bytes")
             elif final[1] == "E_TOO_LARGE":
                 pass
+            elif final[1] == "E_LINE_TOO_LONG" and case.get("pop") == ["PL"] and \
+                    len((ref[1][len(delivered):].split(b"\n", 1)[0])) + 1 > info["high"]:
+                pass    # readline() on a body whose next line is longer than max_size (= high water): LineTooLong is the contract
             else:
                 ctx.violation("C09/valid-body-rejected/" + final[1], c, f"valid complete body reported as {final[1]}")
     # --- resident bound
@@ -1167,6 +1243,19 @@ def oracle(ctx, case, info):
             else:
                 ctx.violation("C09/memory/decoded-resident-exceeds-bound", c,
                               f"peak buffered {info['peak']} > high_water {info['high']} + 2*max(limit, low_water) = {bound}")
+    # --- one readline() call holds at most max_size (= high water) plus the buffer that tipped it over
+    if case.get("pop") == ["PL"] and info["low"] < MAXSIZE:
+        if header_encoding(enc):
+            step = max(limit, info["low"])
+            if enc == "br":
+                step = brotli_call_max(step)
+        else:
+            step = max([len(x) // 2 for x in case["wire_segs"]] + [1])
+        lbound = info["high"] + step
+        if info.get("line_peak", 0) > lbound:
+            ctx.violation("C09/memory/readline-collects-beyond-max-size", c,
+                          f"one readline() call took {info['line_peak']} bytes out of the reader before returning or raising; "
+                          f"max_size (high water) is {info['high']}, one buffer is at most {step}")
     # --- client_max_size
     if case["mode"] == "req" and info["req"] is not None and case["cms"]:
         cms = case["cms"]
@@ -1322,6 +1411,8 @@ def finding_cases():
             out.append(("truncated-" + enc, dict(trunc, enc=enc, body=hx(t), wire_segs=[hx(t)])))
     out.append(("coding-case", dict(trunc, body=hx(gzip.compress(data, mtime=0)), wire_segs=[hx(gzip.compress(data, mtime=0))],
                                     shape="random", ce_variant="upper")))
+    # readline() parks after the parser failed during its own re-entrant refill (found by the thorough tier, kept verbatim)
+    out.append(("readline-parks-after-exception", json.loads('{"pop": ["PL"], "ce_variant": "lower", "side": "server", "enc": "deflate", "limit": 5, "framing": "C", "body": "7801e3e5e2e54a4fcccd050005", "wire_segs": ["3030330d0a7801e30d0a313b613d620d0ae50d0a310d0ae20d0a330d0ae54a4f0d0a320d0acccd0d0a310d0a050d0a310d0a000d0a310d0a050d0a300d0a0d0a"], "merge_head": true, "ops": [["D"], ["D"], ["D"], ["D"], ["PL"], ["D"], ["D"], ["D"], ["PL"], ["D"], ["D"], ["PL"], ["PL"], ["D"]], "shape": "text+trunc", "cms": 0, "post": false, "mode": "parked", "close_after_wire": false, "close_early": false}')))
     if "zstd" in available_encodings():
         # frame 1 announces 1 content byte but its last (raw) block is empty; frame 2 is valid ("5")
         zb = bytes.fromhex("28b52ffd2001010000" + "28b52ffd200109000035")
@@ -1338,7 +1429,7 @@ def probe_cases():
     they are covered even when a cold build eats the time budget)"""
     out = []
     base = {"merge_head": False, "ops": [], "cms": 0, "post": False, "mode": "mixed", "close_after_wire": False,
-            "close_early": False, "ce_variant": "lower"}
+            "close_early": False, "ce_variant": "lower", "pop": None}
     text = (b"The quick brown fox jumps over the lazy dog. " * 8)[:300]
     # (a) first-byte sniff of a `deflate` body: raw and zlib-wrapped x chunked x every single cut of the first 40 wire bytes
     #     (the cut right after the first chunk-size line makes the chunked parser call payload.feed_data(b"") first)
@@ -1370,6 +1461,51 @@ def probe_cases():
                 t = body[:-3]
                 out.append(dict(base, side="client", enc=enc, limit=1024, framing="L", body=hx(t), wire_segs=[hx(t)],
                                 shape="text+trunc+probe-coding-case", ce_variant=variant))
+    # (d) a consumer coroutine parked in _wait() when an HTTP chunk ends WITHOUT new output (the last bytes of the chunk are
+    #     the gzip trailer / a Z_SYNC_FLUSH marker / the adler32 of a zlib stream): end_http_chunk_receiving() completes the
+    #     waiter, nothing is buffered, the body is not over -- read(n) / readany() / readline() must keep waiting
+    pbase = dict(base, mode="parked")
+    gz = gzip.compress(b"hello\n", mtime=0)
+    zl = zlib.compress(b"hello\n")
+    co = zlib.compressobj(6, zlib.DEFLATED, -15)
+    syncd = co.compress(b"hello\n") + co.flush(zlib.Z_SYNC_FLUSH)        # ... 00 00 ff ff
+    fin = co.compress(b"world\n") + co.flush()
+    gz2 = gzip.compress(b"world\n", mtime=0)
+    zl2 = zlib.compress(b"world\n")
+    for enc, first, tail, rest in (("gzip", gz[:-8], gz[-8:], b""), ("gzip", gz[:-4], gz[-4:], gz2),
+                                   ("deflate", zl[:-4], zl[-4:], zl2), ("rawdeflate", syncd[:-4], syncd[-4:], fin)):
+        body = first + tail + rest
+        n1 = len(first) + len(tail)
+        segs = [b"%x\r\n" % n1 + first, tail + b"\r\n"]
+        if rest:
+            segs.append(b"%x\r\n" % len(rest) + rest + b"\r\n")
+        segs.append(b"0\r\n\r\n")
+        for pop in (["PR", 3], ["PR", 100], ["PA"], ["PL"]):
+            for side in ("client", "server"):
+                ops = []
+                for _ in segs:
+                    ops += [["D"], pop, pop]
+                out.append(dict(pbase, side=side, enc=enc, limit=1024, framing="C", body=hx(body), wire_segs=[hx(x) for x in segs],
+                                ops=ops, pop=pop, shape="text+probe-chunk-end-wake"))
+    # (e) readline() on a compressed body without any separator, input already received (the parser holds pending input and
+    #     refills the reader re-entrantly while buffers are taken): LineTooLong must come at max_size, not at end of body
+    for enc in [e for e in ("gzip", "deflate", "zstd", "br") if e in available_encodings()]:
+        for lim, total in ((16, 2000), (1024, 40000), (1024, 2049), (1024, 2048)):
+            body = compress(enc, b"a" * total)
+            for side in ("client", "server"):
+                out.append(dict(pbase, side=side, enc=enc, limit=lim, framing="L", body=hx(body), wire_segs=[hx(body)],
+                                ops=[["D"], ["PL"]], pop=["PL"], shape="bomb+probe-readline"))
+            out.append(dict(pbase, side="client", enc=enc, limit=lim, framing="C", body=hx(body),
+                            wire_segs=[hx(b"%x\r\n" % len(body) + body + b"\r\n0\r\n\r\n")],
+                            ops=[["D"], ["PL"]], pop=["PL"], shape="bomb+probe-readline"))
+    # lines around max_size, compressed, whole body received first
+    for lim in (16, 1024):
+        hw = 2 * lim
+        text2 = b"".join(b"x" * k + b"\n" for k in (0, 1, hw - 2, hw - 1, lim, 3))
+        for enc in ("gzip", "identity"):
+            body = compress(enc, text2)
+            out.append(dict(pbase, side="client", enc=enc, limit=lim, framing="L", body=hx(body), wire_segs=[hx(body)],
+                            ops=[["D"]], pop=["PL"], shape="text+probe-readline"))
     # (b) concatenated members whose decoded sizes make the output budget of one decode step (max(limit, low_water)) run out
     #     exactly at a member boundary: 1024/512/2048 with limit 1024 (whole and 97-byte segments), 1025 x 3 with 97-byte segments
     encs = [e for e in ("deflate", "rawdeflate", "gzip", "zstd") if e in available_encodings()]
@@ -1439,6 +1575,156 @@ def vloop_scenarios(ctx):
                       f"chunk, `await read()` never returns (loop quiescent={quiescent}, result={res!r})")
 
 
+# ------------------------------------------------------------------------------------ server side: peer closes in mid-body
+class _SrvTransport(MemTransport):
+    def __init__(self):
+        super().__init__()
+        self.out = bytearray()
+
+    def write(self, data):
+        self.out += bytes(data)
+
+    def writelines(self, datas):
+        for d in datas:
+            self.out += bytes(d)
+
+    def get_write_buffer_size(self):
+        return 0
+
+    def set_write_buffer_limits(self, *a, **k):
+        pass
+
+    def can_write_eof(self):
+        return False
+
+
+def server_close_cases():
+    out = []
+    text = b"field=" + b"v" * 300
+    for framing in ("L", "C"):
+        for enc in ("identity", "gzip", "deflate"):
+            for how in ("read", "readany", "read-n", "readline", "post"):
+                for part in ("none", "some"):
+                    out.append({"kind": "server_close", "framing": framing, "enc": enc, "how": how, "part": part,
+                                "body": hx(compress(enc, text))})
+    return out
+
+
+def run_server_close(case):
+    """real web.Server / RequestHandler on the virtual-time loop: the handler is parked reading a request body of which
+    only a part has arrived; the peer closes cleanly (connection_lost(None)).  -> outcome of the handler's read"""
+    from .common import vloop
+    from aiohttp import web
+    body = unhx(case["body"])
+    he = header_encoding(case["enc"])
+    sent = b"" if case["part"] == "none" else body[: max(1, len(body) // 2)]
+    head = b"POST /p HTTP/1.1\r\nHost: a\r\nContent-Type: application/x-www-form-urlencoded\r\n"
+    if he:
+        head += b"Content-Encoding: " + he.encode() + b"\r\n"
+    if case["framing"] == "L":
+        head += b"Content-Length: %d\r\n\r\n" % len(body)
+        first = sent
+    else:
+        head += b"Transfer-Encoding: chunked\r\n\r\n"
+        first = (b"%x\r\n" % len(body) + sent) if sent else b""
+    box = {}
+
+    async def main():
+        done = asyncio.Event()
+
+        async def handler(request):
+            box["started"] = True
+            try:
+                how = case["how"]
+                if how == "read":
+                    await request.read()
+                elif how == "post":
+                    await request.post()
+                elif how == "readany":
+                    while await request.content.readany():
+                        pass
+                elif how == "read-n":
+                    while await request.content.read(64):
+                        pass
+                else:
+                    while await request.content.readline():
+                        pass
+                box["outcome"] = "eof"
+            except BaseException as e:
+                box["outcome"] = "e=" + ("E_CONN_RESET" if isinstance(e, ConnectionResetError) else
+                                         "CANCELLED" if isinstance(e, asyncio.CancelledError) else err_name(e))
+                raise
+            finally:
+                done.set()
+            return web.Response()
+        server = web.Server(handler)
+        proto = server()
+        tr = _SrvTransport()
+        proto.connection_made(tr)
+        proto.data_received(head + first)
+        for _ in range(20):
+            await asyncio.sleep(0)
+        box["parked"] = box.get("started") and "outcome" not in box
+        proto.connection_lost(None)
+        try:
+            await asyncio.wait_for(done.wait(), 60)
+        except asyncio.TimeoutError:
+            return "hang"               # 60 virtual seconds after the close the handler is still parked
+        return box.get("outcome")
+    import logging
+    lg = logging.getLogger("aiohttp.server")
+    old = lg.level
+    lg.setLevel(logging.CRITICAL + 1)       # the server logs the handler's exception with a traceback: expected here
+    try:
+        res, excs, quiescent = vloop.run(main)
+    finally:
+        lg.setLevel(old)
+    # the outcome is what main() saw; the loop's final clean-up cancels a still-parked handler, which is not the server's doing
+    box["outcome"] = "hang" if (quiescent or res is None) else res
+    return dict(box), sent, first
+
+
+def check_server_close(ctx):
+    cases = server_close_cases()
+    lines, keep = [], []
+    for case in cases:
+        box, sent, first = run_server_close(case)
+        ctx.case(("server_close", case), sample={"server_close": {k: case[k] for k in ("framing", "enc", "how", "part")},
+                                                 "outcome": box.get("outcome")} if len(keep) % 17 == 0 else None)
+        ctx.hit("server-close:" + str(box.get("outcome")))
+        oracle_server_close(ctx, case, box)
+        he = header_encoding(case["enc"])
+        fr = f"L{len(unhx(case['body']))}" if case["framing"] == "L" else "C"
+        # the model: deliver what arrived, the handler's read parks, the server loses the connection, the read is resumed
+        ops = ([f"D:{hx(first)}"] if first else []) + ["Q:0", "XS", "Q:0"]
+        lines.append(f"run 0 65536 {fr} {1 if he else 0} {1 if he == 'deflate' else 0} {1 if he == 'deflate' else 0} "
+                     f"{128 - 5 - (1 if he else 0)} " + " ".join(ops))
+        keep.append((case, box))
+    outs = ctx.model(lines)
+    if outs is not None:
+        for (case, box), o in zip(keep, outs):
+            if not box.get("parked") or case["how"] in ("readline", "read-n", "readany") and case["part"] == "some":
+                continue      # the model line describes a handler parked in read() with nothing delivered to it yet
+            items = [t for t in o.split(" ") if t.count("/") == 3]
+            model_out = items[-1].split("/")[0] if items else "?"
+            ctx.compare({"case": case}, box.get("outcome"), model_out, "RequestHandler.connection_lost vs Aio.C09.connectionLostServer")
+
+
+def oracle_server_close(ctx, case, box):
+    """a request body cut short by the peer going away is an error for the handler that is reading it -- never a hang
+    and never a clean end-of-body"""
+    if not box.get("started"):
+        return
+    o = box.get("outcome")
+    if o == "hang":
+        ctx.violation("C09/no-progress/server-peer-close-mid-body-handler-parked", case,
+                      f"handler parked in {case['how']} on a {case['framing']}/{case['enc']} request body ({case['part']} of it "
+                      f"received); the peer closed cleanly; the read neither fails nor ends (no timer left on the loop)")
+    elif o == "eof":
+        ctx.violation("C09/not-transparent/server-truncated-body-clean-eof", case,
+                      f"truncated {case['framing']}/{case['enc']} request body read to a clean end by {case['how']}")
+
+
 # ------------------------------------------------------------------------------------ check
 def run_and_compare(ctx, cases, label):
     results = []
@@ -1465,7 +1751,7 @@ def run_and_compare(ctx, cases, label):
             ctx.hit("shape:" + tag)
         if info["peak"] > info["high"]:
             ctx.hit("pause:over-high-water")
-        if any(t.split("/")[1][3] == "1" for t in r["impl"].split(" ") if t.count("/") == 2):
+        if any(t.split("/")[2][3] == "1" for t in r["impl"].split(" ") if t.count("/") == 3):
             ctx.hit("pause:pending-input")
         if info["closed"]:
             ctx.hit("op:peer-close")
@@ -1484,6 +1770,7 @@ def check(ctx):
         run_and_compare(ctx, probe_cases(), "pipeline vs Aio.C09.run (deterministic probes)")
         remove_patches()
         vloop_scenarios(ctx)
+        check_server_close(ctx)
         n = 1500 if ctx.quick else 16000
         cases = []
         for _ in range(n):
@@ -1530,6 +1817,10 @@ def check_toy_codec(ctx, rng):
 
 
 def replay(ctx, case):
+    if case.get("kind") == "server_close":
+        box, _, _ = run_server_close(case)
+        oracle_server_close(ctx, case, box)
+        return
     if case.get("law"):
         import random
         check_codec_laws(ctx, case["enc"], unhx(case["body"]), random.Random(0))
